@@ -270,7 +270,7 @@ func childMain(env *vh.Env) {
 	if budget <= 0 {
 		budget = 3 << 30
 	}
-	debug.SetMemoryLimit(budget + 1<<30)
+	debug.SetMemoryLimit(budget + 256<<20)
 	gate := newMemGate(budget)
 	var wg sync.WaitGroup
 	var pmu sync.Mutex
@@ -356,7 +356,11 @@ func childMain(env *vh.Env) {
 // specWeight estimates the bytes a scenario holds while it runs: every pack is kept as the pack itself, its
 // reference frame, the bytes the collector stand-in received, and (transiently) the client's copy.
 func specWeight(sp scenarioSpec) int64 {
-	sends := int64(sp.Senders) * int64(sp.PreMax+sp.Post)
+	pre := sp.PreMax // an upper bound that the paced senders of long scripts rarely reach
+	if pre > 300 {
+		pre = 300
+	}
+	sends := int64(sp.Senders) * int64(pre+sp.Post)
 	per := int64(600)
 	switch {
 	case sp.BigAll > 0:
@@ -568,6 +572,9 @@ func runIsolated(env *vh.Env, jobs []job, par int) (map[int]*scenRecord, []crash
 	}
 	pending := jobs
 	mem := int64(3 << 30)
+	if raceEnabled {
+		mem = 3 << 29 // the race detector's shadow memory multiplies what a scenario holds
+	}
 	oomRounds := 0
 	for round := 0; len(pending) > 0 && round < 12; round++ {
 		cr := runChildMem(env, pending, par, mem, batchTimeout)
